@@ -32,6 +32,7 @@ def run(repo, chk, tier):
     self_description(repo, chk)
     copies_and_combinations(repo, chk)
     correlated(repo, chk)
+    column_norms(repo, chk)
     labels(repo, chk)
     noise(repo, chk)
     downsample(repo, chk)
@@ -210,6 +211,19 @@ def correlated(repo, chk):
             ok_r = None
     if ok_r is not None:
         chk.expect(ok_r, 'C20.3c', 'R15', fn.site(r[0]) if r else fn.site(), ast.unparse(r[0]) if r else '', 'the new features are appended as columns', 'correlated features must be appended to X as columns')
+
+
+def column_norms(repo, chk):
+    """C20.3e - the orthogonal components are normalised COLUMN by column: a norm taken over the whole matrix (np.linalg.norm(M) without axis) scales all
+    columns by one number, so the combination r*x + sqrt(1 - r^2)*y no longer has correlation r."""
+    fn = repo.func(CC, f'{CLS}.generate_correlated')
+    m = fn.module
+    for c in own_nodes(fn.node):
+        if isinstance(c, ast.Call) and (m.dotted(c.func) or '') == 'numpy.linalg.norm' and len(c.args) == 1 and not any(k.arg == 'axis' for k in c.keywords):
+            chk.bad('C20.3e', 'R15', fn.site(c), ast.unparse(c)[:80], 'the norm is taken over the whole matrix (no axis): the orthogonal components are not normalised column by column, so the generated feature does not '
+                    'have Pearson correlation r with its source')
+            return
+    chk.ok('C20.3e', 'R15', fn.site(), 'norms in generate_correlated', 'no whole-matrix norm stands in for the per-column normalisation')
 
 
 def labels(repo, chk):
